@@ -439,6 +439,24 @@ def wl_stream(ctx, rng, case):
                         subs.pop(0)
                     subs.append(refimpl.BloomModel(m, k))
                 subs[-1].add(hs)
+        elif r < 0.94:
+            # the stream is loaded back (from its bytes, or from a file) and the LOADED object carries the history on: what it writes from
+            # here on is still what the reference writer produces for the whole history
+            cls = type(f)
+            extra = {"max_queue_size": Q} if rotating else {}
+            if rng.random() < 0.6:
+                f = cls.frombytes(bytes(f), **extra)
+                case.op("reload", "frombytes")
+            else:
+                sc = bl.Scratch(ctx, case)
+                try:
+                    p = sc.path("stream")
+                    f.export(p)
+                    f = cls(filepath=p, **extra)
+                finally:
+                    sc.cleanup()
+                case.op("reload", "filepath")
+            ctx.count("stream_histories_continued_by_a_loaded_object")
         else:
             f.push()
             case.op("push")
